@@ -24,6 +24,13 @@ def groups(n, seed):
             rs["fault"] = ("region", 0, float(rng.uniform(-0.5, 1.0)), ["obj", "cons", "obj_grad"][i % 3], "nan")
             pk["lamb_max"] = 1e4
         gs.append({"tag": "C15", "runs": [rs]})
+    # ratio controllers may also *raise* lamb on an accepted step (theta between theta_ref and theta_max): small, odd lamb_max
+    from pygradflow.params import StepControlType
+    for i in range(max(10, n // 8)):
+        pk = dict(step_control_type=[StepControlType.ResiduumRatio, StepControlType.DistanceRatio][i % 2],
+                  lamb_max=[3.3, 6.5, 13.0, 20.0, 50.0][i % 5], iteration_limit=60, display_interval=1e9)
+        gs.append({"tag": "C15.lambmax", "runs": [{"prob": ("repo", ["rosenbrock", "hs71", "hs71c"][i % 3]), "params": pk,
+                                                   "x0": [[-1.2, 1.0], None, None][i % 3]}]})
     return gs
 
 
@@ -70,6 +77,6 @@ def main():
         chk.traces += chk.cases
     chk.assumptions += ["exact.solves compares an independently computed implicit-Euler residual (true projection) with "
                         "newton_tol*(1+1e-6) + sqrt(n)*1e-8 (the code's activity margin)"]
-    chk.replay_behaviours(num=250 if not chk.thorough else 2000)
+    chk.replay_behaviours(num=500 if not chk.thorough else 6000)
     return chk.finish(rule="MC over all accept/reject/fail sequences of the 4 controllers with lamb_max within reach + traced "
                            "solves with injected failures and tiny lamb_max")
